@@ -74,6 +74,13 @@ pub fn gen_case(rng: &mut Rng) -> Case16 {
     Case16 { base, multiline }
 }
 
+thread_local! {
+    /// the matcher of the case being enumerated (hundreds of runs per case
+    /// share it; compiling it anew each time dominates under Miri)
+    static MATCHER: std::cell::RefCell<Option<(String, bool, crate::model::Term, grep_regex::RegexMatcher)>> =
+        std::cell::RefCell::new(None);
+}
+
 fn run_one(
     case: &Case16,
     leg: &Leg,
@@ -83,7 +90,18 @@ fn run_one(
     if case.multiline {
         flags.dotall = false;
     }
-    let m = oracle::build_matcher(&[case.base.pattern.clone()], &flags)?;
+    let key = (case.base.pattern.clone(), case.multiline, case.base.cfg.term);
+    let m = MATCHER.with(|c| -> Result<grep_regex::RegexMatcher, String> {
+        let mut c = c.borrow_mut();
+        if let Some((p, ml, t, m)) = c.as_ref() {
+            if *p == key.0 && *ml == key.1 && *t == key.2 {
+                return Ok(m.clone());
+            }
+        }
+        let m = oracle::build_matcher(&[case.base.pattern.clone()], &flags)?;
+        *c = Some((key.0.clone(), key.1, key.2, m.clone()));
+        Ok(m)
+    })?;
     let mut cfg: SearchCfg = case.base.cfg.clone();
     cfg.multi_line = case.multiline;
     Ok(run_leg(&m, &cfg, leg, &case.base.input, stop))
